@@ -60,6 +60,9 @@ TRANSLATORS = {
     "psl_table": ("psl_table.py", ["public-suffix/src/tld_list.rs"], "theories/Psl/gen/PslTable.v"),
     "psl_rules": ("psl_rules.py", ["public-suffix/public_suffix_list.dat"], "theories/Psl/gen/PslRules.v"),
     "status": ("status.py", ["passkey-types/src/ctap2/error.rs"], "theories/Wire/gen/Status.v"),
+    "dispatch": ("dispatch.py", ["passkey-authenticator/src/ctap2.rs", "passkey-authenticator/src/authenticator/get_info.rs",
+                                 "passkey-authenticator/src/authenticator/make_credential.rs",
+                                 "passkey-authenticator/src/authenticator/get_assertion.rs"], "theories/Disp/gen/DispatchFacts.v"),
     "ctap_schema": ("ctap_schema.py", ["passkey-types/src"], "theories/Wire/gen/CtapSchema.v"),
     "webauthn_error": ("webauthn_error.py", ["passkey-client/src/lib.rs"], "theories/Wire/gen/WebauthnError.v"),
     "json_schema": ("json_schema.py", ["passkey-types/src"], "theories/Wire/gen/JsonSchema.v"),
